@@ -56,7 +56,7 @@ var leanReserved = map[string]bool{"end": true, "from": true, "at": true, "open"
 
 func g2lIdent(s string) string {
 	if leanReserved[s] {
-		return s + "'"
+		return "«" + s + "»"
 	}
 	if s == "_" {
 		return "_"
@@ -117,7 +117,7 @@ func (g *g2l) expr(e ast.Expr) string {
 		return g.expr(x.X)
 	case *ast.SelectorExpr:
 		if id, ok := x.X.(*ast.Ident); ok && g.pkgs[id.Name] {
-			return id.Name + "." + g2lIdent(x.Sel.Name)
+			return g2lIdent(id.Name) + "." + g2lIdent(x.Sel.Name)
 		}
 		if g.isOpt(x.X) {
 			return "(GoLite.deref " + g.expr(x.X) + ")." + g2lIdent(x.Sel.Name)
@@ -255,9 +255,9 @@ func (g *g2l) call(x *ast.CallExpr) string {
 	case *ast.SelectorExpr:
 		if id, ok := fn.X.(*ast.Ident); ok && g.pkgs[id.Name] {
 			if len(x.Args) == 0 {
-				return id.Name + "." + g2lIdent(fn.Sel.Name)
+				return g2lIdent(id.Name) + "." + g2lIdent(fn.Sel.Name)
 			}
-			return "(" + id.Name + "." + g2lIdent(fn.Sel.Name) + " " + args() + ")"
+			return "(" + g2lIdent(id.Name) + "." + g2lIdent(fn.Sel.Name) + " " + args() + ")"
 		}
 		// method call
 		recv := g.atom(fn.X)
@@ -300,7 +300,7 @@ func (g *g2l) composite(x *ast.CompositeLit) string {
 	}
 	// error types carry only their kind
 	if strings.HasSuffix(tn, "Error") || strings.HasPrefix(tn[strings.LastIndex(tn, ".")+1:], "Err") {
-		return "(GoLite.errT " + leanStr(tn) + " \"\")"
+		return "(GoLite.errT " + leanStr(exprText(x.Type)) + " \"\")"
 	}
 	var fs []string
 	for _, el := range x.Elts {
@@ -328,6 +328,9 @@ func g2lType(g *g2l, e ast.Expr) string {
 		}
 		return x.Name
 	case *ast.SelectorExpr:
+		if id, ok := x.X.(*ast.Ident); ok {
+			return g2lIdent(id.Name) + "." + g2lIdent(x.Sel.Name)
+		}
 		return exprText(x)
 	case *ast.StarExpr:
 		return g2lType(g, x.X)
